@@ -151,6 +151,10 @@ def check_counters(ctx, P):
         ok = kinds in (["checked-assert"], ["wrapping"]) and adt_ty == ty
         ctx.check(ok, "counter", "%s:%s" % (path, ".".join(fld)), "%s is a %s advanced once per call (domain %s < type range)" % (".".join(fld), ty, dom), "%s updates %s as %s in a %s: the counter can no longer hold the algorithm's maximum input" % (path, ".".join(fld), kinds, adt_ty), where=fn.where(), key="counter:%s" % path)
     # cipher block counters (C03 rules) and KDF counters (C10 rules)
+    # set_counter / increment / the 64-bit carry as value graphs (block-eq, shared with C03): the pattern rules below are then
+    # cross-checks of the same functions
+    from . import arx
+    ctx.guard("block-eq", "engines", lambda: arx.check_engines(ctx, {"K0": P}))
     ctx.guard("counter", "chacha-sse2", lambda: C03.check_counter_engine(ctx, P, "chacha::sse2", "K0"))
     ctx.guard("counter", "salsa", lambda: C03.check_counter_engine(ctx, P, "salsa20", "K0", is_salsa=True))
     ctx.guard("counter", "hkdf", lambda: C10.check_hkdf(ctx, P))
